@@ -95,6 +95,19 @@ def run_scenario(levels: List[str], queries_fn):
 
             greenlet.greenlet(mid_body).switch()
             box["inner"].switch()                           # re-entered from here, below a dead parent
+        elif kind == "deep":
+            # a thread's stack, stitched across greenlets, longer than sys.getrecursionlimit(): a greenlet that has recursed
+            # several hundred frames deep parks; a second one, started from shallow code with the first as its parent, recurses
+            # several hundred frames again (each greenlet has a recursion budget of its own)
+            def rec(n, then):
+                if n:
+                    return rec(n - 1, then)
+                return then()
+
+            g1 = greenlet.greenlet(lambda: rec(560, lambda: greenlet.getcurrent().parent.switch()))
+            g1.switch()
+            g2 = greenlet.greenlet(lambda: rec(560, lambda: level(k + 1)), parent=g1)
+            g2.switch()
         elif kind == "gb":
             # the split is made by greenback: the levels below run as synchronous code of a Trio task that has a greenback portal
             # (greenback's child greenlet, under its shim and trampoline frames)
@@ -141,6 +154,8 @@ class C04(PropCheck):
                 continue
             seen.add(tuple(levels))
             out.append({"k": "stack", "levels": levels, "qseed": rng.randrange(1 << 30), "hostile": len(out) % 5 == 0})
+        # a stack longer than the recursion limit (two greenlets, several hundred frames each)
+        out.append({"k": "stack", "levels": ["deep", "f"], "qseed": rng.randrange(1 << 30)})
         # the same under `python -O` (a child interpreter): nothing may depend on assert statements being executed
         for levels in (["f"], ["f", "g", "f"], ["gl", "f"], ["f", "gl", "c"], ["gld", "f"]):
             out.append({"k": "stack", "levels": levels, "qseed": rng.randrange(1 << 30), "optimized": True})
@@ -276,6 +291,8 @@ class C04(PropCheck):
             idx = {id(f): i for i, f in enumerate(full)}
             first_mine = idx[id(mine[0])]
             positions = [None] + list(range(max(0, first_mine - 2), len(full)))
+            if len(positions) > 60:
+                positions = [None] + sorted(rng.sample(positions[1:], 40) + [positions[1], positions[-1]])
             limits = [None, 1, 2, 3, len(full) + 1]
             combos = [(o, i, l) for o in positions for i in positions for l in limits]
             if len(combos) > 260:
@@ -330,14 +347,15 @@ class C04(PropCheck):
                     probs.append(f"StackSlice(outer={o}, inner={i}, limit={l}) gave {fr}, the true stack slice is {spec(o, i, l)} "
                                  f"(stack of {len(full)} frames, greenlet segments {segj})")
             # the shortcut APIs
-            for o in [None] + list(range(first_mine, len(full))):
+            mine_pos = list(range(first_mine, len(full))) if len(full) <= 80 else [q for q in positions[1:] if q >= first_mine][::4]
+            for o in [None] + mine_pos:
                 st = stackscope.extract_since(None if o is None else full[o], with_contexts=False)
                 s, fr = show(st)
                 res.append(s)
                 qlist.append({"outer": o, "inner": None, "limit": None})
                 if fr != spec(o, None, None):
                     probs.append(f"extract_since({o}) gave {fr}, expected {spec(o, None, None)}")
-            for i in range(first_mine, len(full)):
+            for i in mine_pos:
                 if i in gbf:
                     continue
                 for l in (None, 1, 2, len(full) + 1):
@@ -349,7 +367,9 @@ class C04(PropCheck):
                         probs.append(f"extract_until({i}, limit={l}) gave {fr}, expected {spec(None, i, l)}")
                 # frame-valued limit: reachable by f_back only, in zero or more steps (limit=inner is the one-frame slice)
                 f = full[i]
-                while f is not None and id(f) in idx:
+                steps = 0
+                while f is not None and id(f) in idx and steps < 12:
+                    steps += 1
                     lo = idx[id(f)]
                     try:
                         st = stackscope.extract_until(full[i], limit=f, with_contexts=False)
